@@ -216,6 +216,18 @@ def run(case) -> dict:
         dc = refdc.RefDC(world, [], host=DC, epm={"raw_reply": reply})
         label = f"trunc@{len(reply)}/{len(full)}"
     world.routes.pop((DC, dc.gkdi_port), None)  # nothing listens behind the mapper: only the dialled port is observed
+    if kind == "wf":
+        # how the mapper's bytes travel: in one piece, in PRNG segments with a pause before the last part, or complete and followed
+        # at once by a reset of the connection (the mapper closes hard after answering) - the answer is the same
+        how = (seed // 7) % 4
+        if how == 1:
+            world.default_delivery = {"mode": "rand", "seed": seed & 0xFFFF, "bias": ("small", "header", "geo")[seed % 3]}
+        elif how == 2:
+            world.default_delivery = {"mode": "cuts", "cuts": {"1": [16 + seed % max(1, len(reply))]}, "gaps": [[1, 1, (0.01, 0.5, 3.0)[seed % 3]]]}
+        elif how == 3:
+            world.default_delivery = {"rst_at": [1, 24 + len(reply)]}
+        label += f" delivery={('whole', 'segments', 'pause', 'reset-after-reply')[how]}"
+        probes_delivery = how
     vmw = common.VmWatch()
     vmw.__enter__()
     with world.installed():
@@ -232,6 +244,8 @@ def run(case) -> dict:
     probes: t.Dict[str, int] = {"kind_" + kind: 1}
     if kind == "wf" and "alloc_hint=len-" in label:
         probes["alloc_hint_short"] = 1
+    if kind == "wf":
+        probes["delivery_" + ("whole", "segments", "pause", "reset_after_reply")[probes_delivery]] = 1
 
     def V(clause, cond, detail):
         et, frame = drive.exc_sig(out)
@@ -265,7 +279,7 @@ class C18(common.Check):
     rule = ("case = ept_map reply served to the real first hop of _sync_get_key/_async_get_key. Well-formed (reference-encoded): 0..6 towers, 2..7 "
             "floors of known and unknown protocols with payloads 0..11 bytes (every tower-length residue mod 8), TCP floor first / last / "
             "anywhere / absent, status 0 and error codes: the port dialled next (observed at the network seam) must be the TCP port of the first "
-            "tower with a TCP floor; error status or no TCP floor must raise without dialling; the Response PDU's advisory alloc_hint is exact, "
+            "tower with a TCP floor; error status or no TCP floor must raise without dialling; the Response PDU's advisory alloc_hint is exact, zero or smaller than the stub; the reply arrives whole, in PRNG segments, after a pause, or complete and followed at once by a connection reset; the hint is exact, "
             "zero or smaller than the stub; sequences of lookups in one process whose answers change; 2..3 caller threads looking the endpoint "
             "up at the same time (sync API, deterministic thread scheduler, segmented replies) while the mapper announces a different port "
             "to each: every announced port must be dialled exactly once. Hostile: many towers with tiny declared lengths whose floor counts "
@@ -277,7 +291,7 @@ class C18(common.Check):
                   "endpoint mapper": "Byzantine scripted peer / reference encoder (ref.rpce)", "network seam": "simulated: the dialled port is an observation",
                   "budgets": "sys.settrace line counter (dpapi_ng frames) and address-space high-water mark"}
     assumptions = ["budgets are affine in the reply length with constants > 20x the maximum observed on well-formed replies"]
-    required_fired = ("port_expected", "must_raise", "kind_hostile", "kind_trunc", "kind_seq", "seq_error_after_success", "hostile_actual", "hostile_floor-count", "hostile_tower-len", "hostile_overlap", "kind_threads", "thread_overlap", "alloc_hint_short")
+    required_fired = ("port_expected", "must_raise", "kind_hostile", "kind_trunc", "kind_seq", "seq_error_after_success", "hostile_actual", "hostile_floor-count", "hostile_tower-len", "hostile_overlap", "kind_threads", "thread_overlap", "alloc_hint_short", "delivery_segments", "delivery_pause", "delivery_reset_after_reply")
 
     def cases(self, tier, seed):
         rng = prng.stream(seed, "C18")
